@@ -1,44 +1,66 @@
 ------------------------------ MODULE Mon_Prio ------------------------------
-(* Property monitor for the priority disciplines over OBSERVED facts only (what a user of the API can
-   see): no variable of the system specification appears here, so a verdict does not depend on the
-   code conforming to PrioV2/PrioV1 - only on the property.  Input: an ndjson stream of observations
-   recorded from the REAL code (harness/prioh), many traces separated by Reset records.
-     Reset{H, prios, share, sat, fault}   start of a trace (share = divider(all priorities, H) of the real divider)
-     W{c,k}   item k (1,2,..) written to the input registered for priority c
-     C{c}     that input closed            R{p,c,k}  item received from Output(), tagged p
-     L{p}     Release(p) issued            A{p} / QA{p,held}  C06 scenario: from "nothing in flight", only priority p is given data, nothing is released; stall point
-     Starved{c}  written items of input c not delivered by the virtual deadline although every received item was released
-     Q{held}   stall point: every open input kept full, nothing released,
-                                                     the discipline has stopped handing out items
-     OC / EC  Output() / Err() observed closed       EV{note} value read from Err()
+(* Property monitor for the priority disciplines (v1 and v2, plain and simplified) over OBSERVED facts only
+   (what a user of the API can see): no variable of the system specifications appears here, so a verdict
+   does not depend on the code conforming to PrioV2/PrioV1 - only on the property.  Input: an ndjson stream
+   of observations recorded from the REAL code (harness/prioh), many traces separated by Reset records.
+     Reset{H, prios, chans, chprio, share, sat, fault, v1}
+              start of a trace: chans = input channel ids, chprio = <<channel, priority>> pairs (the only priority a
+              channel is ever registered under), share = real divider(all priorities, H)
+     W{c,k}   item k (1,2,..) written to input channel c           C{c}  channel c closed
+     R{p,c,k} item received from the output, tagged p              L{p}  release issued (v2 Release / v1 feedback write)
+     Q{held}  stall point: every open input kept full, nothing released, the discipline stopped handing out items
+     A{p} / QA{p,held}  C06 scenario: from "nothing in flight", only priority p is given data, nothing is released
+     Starved{c}  written items of c not delivered by the virtual deadline although every received item was released
+     OC / EC  Output() (v2) / Err() observed closed                EV{note} value read from Err()
      Deadline / Leak   harness-detected absence of termination / leftover goroutine
-   One initial state per trace (TLC checks the traces in parallel, a violation names its trace). *)
+   v1 control plane:
+     Stop, Cancel, Grace          the call was issued          StopRet, GraceRet   the call returned
+     StopHang / CancelHang / GraceHang   no return / no termination by the virtual deadline (or a spinning goroutine)
+     AddRet{c,p}  AddInput(c,p) returned       RmvRet{p,c}  RemoveInput(p) returned, c = channel registered until then
+     Dead{c}      channel c was replaced by an AddInput that returned
+     Taken{c}     the harness observed that the discipline took an element from channel c (len decreased / writer resumed)
+     OutGrew      the user's output channel grew after Stop() had returned
+   One initial state per trace (TLC checks the traces in parallel; a rejected trace is reported once). *)
 EXTENDS Integers, Sequences, FiniteSets, Json, TLC
 Events == ndJsonDeserialize("events.ndjson")
 Starts == {j \in 1..Len(Events) : Events[j].e = "Reset"}
 
 VARIABLES l,      \* index of the last consumed record
           t0,     \* index of this trace's Reset record
-          wr, rc, \* per input: items written / last ordinal received
+          wr, rc, \* per input channel: items written / last ordinal received
+          gap,    \* per input channel: ordinals were skipped (allowed only after a stop/cancel request)
           nr, nl, \* per tag: received / release issued
-          cl,     \* closed inputs
+          cl,     \* closed input channels
+          dead,   \* channels the discipline must not read any more (removed / replaced, call returned)
+          live,   \* channels currently registered as far as returned calls tell
           oc, ec, \* output / err closed
+          stop, stopret, grace,  \* v1 control calls issued / returned
           viol    \* set of property ids violated so far
-vars == <<l, t0, wr, rc, nr, nl, cl, oc, ec, viol>>
+vars == <<l, t0, wr, rc, gap, nr, nl, cl, dead, live, oc, ec, stop, stopret, grace, viol>>
 
 Cfg == Events[t0]
-PriosOf(j) == {Events[j].prios[i] : i \in 1..Len(Events[j].prios)}
+SetOf(s) == {s[i] : i \in 1..Len(s)}
+PriosOf(j) == SetOf(Events[j].prios)
+ChansOf(j) == SetOf(Events[j].chans)
 Prios == PriosOf(t0)
-ShareOf(p) == LET i == CHOOSE i \in 1..Len(Cfg.share) : Cfg.share[i][1] = p IN Cfg.share[i][2]
+Chans == ChansOf(t0)
+PairVal(pairs, k) == LET i == CHOOSE i \in 1..Len(pairs) : pairs[i][1] = k IN pairs[i][2]
+ShareOf(p) == PairVal(Cfg.share, p)
+ChPrio(c) == PairVal(Cfg.chprio, c)
 SumOver(f, S) == LET RECURSIVE Acc(_) Acc(T) == IF T = {} THEN 0 ELSE LET x == CHOOSE x \in T : TRUE IN f[x] + Acc(T \ {x}) IN Acc(S)
 
 Init == /\ t0 \in Starts /\ l = t0
-        /\ wr = [p \in PriosOf(t0) |-> 0] /\ rc = [p \in PriosOf(t0) |-> 0]
+        /\ wr = [c \in ChansOf(t0) |-> 0] /\ rc = [c \in ChansOf(t0) |-> 0] /\ gap = [c \in ChansOf(t0) |-> FALSE]
         /\ nr = [p \in PriosOf(t0) |-> 0] /\ nl = [p \in PriosOf(t0) |-> 0]
-        /\ cl = {} /\ oc = FALSE /\ ec = FALSE /\ viol = {}
+        /\ cl = {} /\ dead = {} /\ live = SetOf(Events[t0].live) /\ oc = FALSE /\ ec = FALSE
+        /\ stop = FALSE /\ stopret = FALSE /\ grace = FALSE /\ viol = {}
 
 InFlight == SumOver(nr, Prios) - SumOver(nl, Prios)
-HeldOf(e, p) == LET i == CHOOSE i \in 1..Len(e.held) : e.held[i][1] = p IN e.held[i][2]
+HeldOf(e, p) == PairVal(e.held, p)
+Keep == UNCHANGED <<wr, rc, gap, nr, nl, cl, dead, live, oc, ec, stop, stopret, grace>>
+\* everything written to the channels that are registered (as far as returned calls tell) has been delivered
+AllDelivered == \A c \in live : rc[c] = wr[c] /\ ~gap[c]
+AllClosed == live \subseteq cl
 
 Step ==
   /\ viol = {}                     \* a rejected trace is reported once, at its first offending record
@@ -47,41 +69,64 @@ Step ==
   /\ LET e == Events[l + 1] IN
      CASE e.e = "W" -> /\ wr' = [wr EXCEPT ![e.c] = e.k]
                        /\ viol' = viol \cup (IF e.k # wr[e.c] + 1 THEN {"harness"} ELSE {})
-                       /\ UNCHANGED <<rc, nr, nl, cl, oc, ec>>
-       [] e.e = "C" -> cl' = cl \cup {e.c} /\ UNCHANGED <<wr, rc, nr, nl, oc, ec, viol>>
-       [] e.e = "R" -> /\ nr' = [nr EXCEPT ![e.p] = @ + 1]
-                       /\ rc' = IF e.c \in Prios THEN [rc EXCEPT ![e.c] = e.k] ELSE rc
+                       /\ UNCHANGED <<rc, gap, nr, nl, cl, dead, live, oc, ec, stop, stopret, grace>>
+       [] e.e = "C" -> cl' = cl \cup {e.c} /\ UNCHANGED <<wr, rc, gap, nr, nl, dead, live, oc, ec, stop, stopret, grace, viol>>
+       [] e.e = "R" -> /\ nr' = IF e.p \in Prios THEN [nr EXCEPT ![e.p] = @ + 1] ELSE nr
+                       /\ rc' = IF e.c \in Chans THEN [rc EXCEPT ![e.c] = e.k] ELSE rc
+                       /\ gap' = IF e.c \in Chans /\ e.k > rc[e.c] + 1 THEN [gap EXCEPT ![e.c] = TRUE] ELSE gap
                        /\ viol' = viol
-                            \cup (IF e.c \notin Prios \/ e.p # e.c THEN {"C02"}                  \* wrong tag / unknown item
-                                  ELSE IF e.k # rc[e.c] + 1 \/ e.k > wr[e.c] THEN {"C02"} ELSE {}) \* duplicate, loss, reorder, not written
+                            \* wrong tag / unknown item; duplicate or reordered; not written; skipped although no stop was requested
+                            \cup (IF e.c \notin Chans \/ e.p \notin Prios THEN {"C02"}
+                                  ELSE IF e.p # ChPrio(e.c) THEN {"C02", "C17"}
+                                  ELSE IF e.k <= rc[e.c] \/ e.k > wr[e.c] THEN {"C02", "C16"}
+                                  ELSE IF e.k # rc[e.c] + 1 /\ ~stop THEN {"C02"} ELSE {})
                             \cup (IF InFlight + 1 > Cfg.H THEN {"C01"} ELSE {})
                             \cup (IF Cfg.sat /\ e.p \in Prios /\ nr[e.p] + 1 - nl[e.p] > ShareOf(e.p) THEN {"C05"} ELSE {})
                             \cup (IF oc THEN {"C07"} ELSE {})
-                       /\ UNCHANGED <<wr, nl, cl, oc, ec>>
-       [] e.e = "L" -> nl' = [nl EXCEPT ![e.p] = @ + 1] /\ UNCHANGED <<wr, rc, nr, cl, oc, ec, viol>>
+                       /\ UNCHANGED <<wr, nl, cl, dead, live, oc, ec, stop, stopret, grace>>
+       [] e.e = "L" -> nl' = [nl EXCEPT ![e.p] = @ + 1] /\ UNCHANGED <<wr, rc, gap, nr, cl, dead, live, oc, ec, stop, stopret, grace, viol>>
        [] e.e = "Q" -> /\ viol' = viol
                             \cup (IF SumOver([p \in Prios |-> HeldOf(e, p)], Prios) > Cfg.H THEN {"C01"} ELSE {})
                             \cup (IF Cfg.sat /\ \E p \in Prios : HeldOf(e, p) # ShareOf(p) THEN {"C05"} ELSE {})
-                       /\ UNCHANGED <<wr, rc, nr, nl, cl, oc, ec>>
+                       /\ Keep
        [] e.e = "OC" -> /\ oc' = TRUE
                         /\ viol' = viol
                              \cup (IF InFlight # 0 THEN {IF Cfg.fault THEN "C15" ELSE "C07"} ELSE {})
-                             \cup (IF ~Cfg.fault /\ (cl # Prios \/ \E c \in Prios : rc[c] # wr[c]) THEN {"C07"} ELSE {})
-                             \cup (IF ~Cfg.fault /\ \E c \in Prios : rc[c] # wr[c] THEN {"C02"} ELSE {})
-                        /\ UNCHANGED <<wr, rc, nr, nl, cl, ec>>
-       [] e.e = "EC" -> ec' = TRUE /\ viol' = viol \cup (IF ~oc THEN {"C07"} ELSE {}) /\ UNCHANGED <<wr, rc, nr, nl, cl, oc>>
+                             \cup (IF ~Cfg.fault /\ (~AllClosed \/ ~AllDelivered) THEN {"C07"} ELSE {})
+                             \cup (IF ~Cfg.fault /\ ~AllDelivered THEN {"C02"} ELSE {})
+                        /\ UNCHANGED <<wr, rc, gap, nr, nl, cl, dead, live, ec, stop, stopret, grace>>
+       [] e.e = "EC" -> /\ ec' = TRUE
+                        /\ viol' = viol \cup (IF ~Cfg.v1 /\ ~oc THEN {"C07"} ELSE {})
+                        /\ UNCHANGED <<wr, rc, gap, nr, nl, cl, dead, live, oc, stop, stopret, grace>>
        [] e.e = "EV" -> /\ viol' = viol \cup (IF e.note # "nil" /\ ~Cfg.fault THEN {"C07"} ELSE {})
-                                        \cup (IF Cfg.fault /\ e.note # "divider produces an incorrect distribution" THEN {"C15"} ELSE {})
-                        /\ UNCHANGED <<wr, rc, nr, nl, cl, oc, ec>>
-       [] e.e = "Deadline" -> viol' = viol \cup {IF Cfg.fault THEN "C15" ELSE "C07"} /\ UNCHANGED <<wr, rc, nr, nl, cl, oc, ec>>
-       [] e.e = "Starved" -> viol' = viol \cup {"C06"} /\ UNCHANGED <<wr, rc, nr, nl, cl, oc, ec>>
+                                        \cup (IF Cfg.fault /\ e.note \notin {"nil", "divider produces an incorrect distribution"} THEN {"C15"} ELSE {})
+                        /\ Keep
+       [] e.e = "Deadline" -> viol' = viol \cup {IF Cfg.fault THEN "C15" ELSE "C07"} /\ Keep
+       [] e.e = "Starved" -> viol' = viol \cup {"C06"} /\ Keep
        [] e.e = "QA" -> \* only priority e.p had data, nothing else in flight, nothing released: it must hold all H handlers
-                        /\ viol' = viol \cup (IF HeldOf(e, e.p) # Cfg.H THEN {"C06"} ELSE {})
-                        /\ UNCHANGED <<wr, rc, nr, nl, cl, oc, ec>>
-       [] e.e = "Leak" -> viol' = viol \cup {"C19"} /\ UNCHANGED <<wr, rc, nr, nl, cl, oc, ec>>
-       [] e.e = "NoErr" -> viol' = viol \cup {"C15"} /\ UNCHANGED <<wr, rc, nr, nl, cl, oc, ec>>
-       [] e.e = "SentAfterBad" -> viol' = viol \cup {"C15"} /\ UNCHANGED <<wr, rc, nr, nl, cl, oc, ec>>
-       [] OTHER -> UNCHANGED <<wr, rc, nr, nl, cl, oc, ec, viol>>
+                        /\ viol' = viol \cup (IF HeldOf(e, e.p) # Cfg.H THEN {"C06"} ELSE {}) /\ Keep
+       [] e.e = "Leak" -> viol' = viol \cup {"C19"} /\ Keep
+       [] e.e = "NoErr" -> viol' = viol \cup {"C15"} /\ Keep
+       [] e.e = "SentAfterBad" -> viol' = viol \cup {"C15"} /\ Keep
+       \* ---- v1 control plane
+       [] e.e \in {"Stop", "Cancel"} -> stop' = TRUE /\ UNCHANGED <<wr, rc, gap, nr, nl, cl, dead, live, oc, ec, stopret, grace, viol>>
+       [] e.e = "StopRet" -> stopret' = TRUE /\ UNCHANGED <<wr, rc, gap, nr, nl, cl, dead, live, oc, ec, stop, grace, viol>>
+       [] e.e = "Grace" -> grace' = TRUE /\ UNCHANGED <<wr, rc, gap, nr, nl, cl, dead, live, oc, ec, stop, stopret, viol>>
+       [] e.e = "GraceRet" -> \* GracefulStop returns only when everything registered is closed, emptied, delivered and released
+                        /\ viol' = viol \cup (IF ~stop /\ ~Cfg.fault /\ (~AllClosed \/ ~AllDelivered \/ InFlight # 0) THEN {"C07"} ELSE {})
+                                        \cup (IF ~stop /\ ~Cfg.fault /\ ~AllDelivered THEN {"C02"} ELSE {})
+                        /\ Keep
+       [] e.e \in {"StopHang", "CancelHang"} -> viol' = viol \cup {"C16"} /\ Keep
+       [] e.e = "GraceHang" -> viol' = viol \cup {"C07"} /\ Keep
+       [] e.e = "OutGrew" -> viol' = viol \cup {"C16"} /\ Keep
+       [] e.e = "HandleAfterStop" -> viol' = viol \cup {"C16"} /\ Keep
+       [] e.e = "AddRet" -> live' = live \cup {e.c} /\ UNCHANGED <<wr, rc, gap, nr, nl, cl, dead, oc, ec, stop, stopret, grace, viol>>
+       [] e.e = "RmvRet" -> /\ live' = live \ {e.c} /\ dead' = dead \cup {e.c}
+                            /\ UNCHANGED <<wr, rc, gap, nr, nl, cl, oc, ec, stop, stopret, grace, viol>>
+       [] e.e = "Dead" -> /\ live' = live \ {e.c} /\ dead' = dead \cup {e.c}
+                          /\ UNCHANGED <<wr, rc, gap, nr, nl, cl, oc, ec, stop, stopret, grace, viol>>
+       [] e.e = "Taken" -> viol' = viol \cup (IF e.c \in dead THEN {"C17"} ELSE {}) /\ Keep
+       [] OTHER -> UNCHANGED <<wr, rc, gap, nr, nl, cl, dead, live, oc, ec, stop, stopret, grace, viol>>
 
 Next == Step
 Spec == Init /\ [][Next]_vars
@@ -92,6 +137,8 @@ M_C05 == "C05" \notin viol
 M_C06 == "C06" \notin viol
 M_C07 == "C07" \notin viol
 M_C15 == "C15" \notin viol
+M_C16 == "C16" \notin viol
+M_C17 == "C17" \notin viol
 M_C19 == "C19" \notin viol
 M_Harness == "harness" \notin viol
 =============================================================================
